@@ -90,7 +90,19 @@ def run_workers(prop, tier, seed, nshards):
             else:
                 problems.append('shard %d crashed in the harness: %s\n%s' % (
                     shard, r.get('error'), r.get('traceback', '')))
-        elif not any(('shard %d ' % shard) in pr for pr in problems):
+        else:
+            # no final result: keep whatever violations the shard had already persisted
+            part = out + '.partial'
+            if os.path.exists(part):
+                try:
+                    with open(part) as f:
+                        r = json.load(f)
+                    r['wall_s'] = 0
+                    results.append(r)
+                    problems.append('shard %d did not finish; its violations recorded so far are reported' % shard)
+                except (OSError, ValueError):
+                    pass
+        if not os.path.exists(out) and not any(('shard %d ' % shard) in pr for pr in problems):
             tail = ''
             try:
                 with open(os.path.join(work, 'shard%02d.log' % shard)) as f:
